@@ -75,6 +75,7 @@ def strategy():
        ['complete', 2, 'infeasible', 1.0]],
   ])
   return st.fixed_dictionaries({
+      'config': st.sampled_from(['small'] * 7 + ['big', 'big', 'unregistered']),
       'ops': st.tuples(prefix, st.lists(op, min_size=4, max_size=30)).map(
           lambda t: t[0] + t[1])})
 
@@ -114,11 +115,20 @@ def _select(dep, backend):
   env.new_suggestion_polling_secs = 0.0
 
 
-def _config():
+def _config(variant='small'):
+  """small: 2 parameters, GRID_SEARCH. big: the same grid plus 300 single-value
+  parameters (a large StudySpec: large messages, large error details).
+  unregistered: an algorithm name the policy factory does not know."""
   from vizier.service import pyvizier as vz
-  sc = vz.StudyConfig(algorithm='GRID_SEARCH')
+  sc = vz.StudyConfig(
+      algorithm='NO_SUCH_ALGORITHM' if variant == 'unregistered'
+      else 'GRID_SEARCH')
   sc.search_space.root.add_int_param('i', 0, 3)
   sc.search_space.root.add_categorical_param('c', ['a', 'b'])
+  if variant == 'big':
+    for k in range(300):
+      sc.search_space.root.add_categorical_param(
+          'fixed_parameter_with_a_long_name_%03d' % k, ['only_value'])
   sc.metric_information.append(vz.MetricInformation(
       'm', goal=vz.ObjectiveMetricGoal.MAXIMIZE))
   return sc
@@ -161,14 +171,14 @@ def _trial_obs(t):
   }
 
 
-def _run_program(dep, backend, ops, owner):
+def _run_program(dep, backend, ops, owner, variant='small'):
   """Executes the program; returns list of observations."""
   from vizier._src.service import clients
   from vizier.service import pyvizier as vz
   _select(dep, backend)
   trace = []
   sid = 's'
-  study = clients.Study.from_study_config(_config(), owner=owner,
+  study = clients.Study.from_study_config(_config(variant), owner=owner,
                                           study_id=sid)
   name = study.resource_name
 
@@ -180,6 +190,7 @@ def _run_program(dep, backend, ops, owner):
 
   for op in ops:
     kind = op[0]
+    msg = ''
     try:
       if kind == 'suggest':
         r = [t.id for t in study.suggest(count=op[1], client_id=op[2])]
@@ -222,6 +233,9 @@ def _run_program(dep, backend, ops, owner):
                        'user').all_items())
       elif kind == 'add_trial':
         params = {'i': op[2] % 4, 'c': 'ab'[op[2] % 2]}
+        if variant == 'big':
+          params.update({'fixed_parameter_with_a_long_name_%03d' % k:
+                         'only_value' for k in range(300)})
         if op[1] == 'out_of_space':
           params['i'] = 17
         if op[1] == 'missing_param':
@@ -231,8 +245,11 @@ def _run_program(dep, backend, ops, owner):
           t.complete(vz.Measurement({'m': float(op[2])}))
         r = study.add_trial(t).id
       elif kind == 'request':
-        r = study.request(vz.TrialSuggestion(
-            {'i': op[1] % 4, 'c': 'ab'[op[1] % 2]})).id
+        rp = {'i': op[1] % 4, 'c': 'ab'[op[1] % 2]}
+        if variant == 'big':
+          rp.update({'fixed_parameter_with_a_long_name_%03d' % k:
+                     'only_value' for k in range(300)})
+        r = study.request(vz.TrialSuggestion(rp)).id
       elif kind == 'optimal':
         r = sorted(t.id for t in study.optimal_trials().get())
       elif kind == 'set_state':
@@ -248,7 +265,7 @@ def _run_program(dep, backend, ops, owner):
       elif kind == 'delete_study':
         r = study.delete()
       elif kind == 'reload':
-        study = clients.Study.from_study_config(_config(), owner=owner,
+        study = clients.Study.from_study_config(_config(variant), owner=owner,
                                                 study_id=sid)
         r = study.resource_name
       else:
@@ -258,13 +275,36 @@ def _run_program(dep, backend, ops, owner):
       if e.args and e.args[0] is op:
         raise
       obs = ['exc', _exc_class(e)]
+      msg = str(e)[:300]
     except Exception as e:  # pylint: disable=broad-except
       obs = ['exc', _exc_class(e)]
-    trace.append({'op': op, 'obs': obs, 'trials': snap()})
+      msg = str(e)[:300]
+    trace.append({'op': op, 'obs': obs, 'trials': snap(), 'msg': msg})
   return trace
 
 
 def check(case):
+  """Runs the case; a mismatch is reported only if it reproduces on a second
+  execution with a fresh owner (real sockets and thread pools are involved: a
+  transient transport hiccup on a loaded machine must not become a
+  violation; a deterministic difference reproduces)."""
+  out = _check_once(case)
+  if out.ok:
+    return out
+  again = _check_once(case)
+  first = {v['bucket'] for v in out.violations}
+  second = {v['bucket'] for v in again.violations}
+  confirmed = first & second
+  if not confirmed:
+    again.violations = []
+    again.inconclusive = True
+    again.cls('transient_mismatch_not_reproduced')
+    return again
+  again.violations = [v for v in again.violations if v['bucket'] in confirmed]
+  return again
+
+
+def _check_once(case):
   from harness import svc  # noqa: F401  (bootstrap)
   import json
   out = core.Out()
@@ -275,7 +315,8 @@ def check(case):
   runs = {}
   for dep in ('L', 'G', 'D'):
     for backend in ('ram', 'sql'):
-      runs[(dep, backend)] = _run_program(dep, backend, case['ops'], owner)
+      runs[(dep, backend)] = _run_program(dep, backend, case['ops'], owner,
+                                          case.get('config', 'small'))
   ref_key = ('L', 'ram')
   ref = runs[ref_key]
   failing_call = False
@@ -315,8 +356,9 @@ def check(case):
           r, sort_keys=True, default=str):
         what = 'exception_class' if 'exc' in (o[0], r[0]) else 'return_value'
         out.violate('%s/%s/L_ram_vs_%s_%s' % ((what, op[0]) + key),
-                    'step %d op=%r: L/ram -> %r ; %s/%s -> %r' % (
-                        i, op, r, key[0], key[1], o))
+                    'step %d op=%r: L/ram -> %r (%s); %s/%s -> %r (%s)' % (
+                        i, op, r, step.get('msg', ''), key[0], key[1], o,
+                        tr[i].get('msg', '')))
       if json.dumps(tr[i]['trials'], sort_keys=True, default=str) != (
           json.dumps(step['trials'], sort_keys=True, default=str)):
         out.violate('stored_state/after_%s/L_ram_vs_%s_%s' % ((op[0],) + key),
@@ -337,6 +379,7 @@ def check(case):
     if step['op'][0] == 'suggest' and step['obs'] == ['ok', []]:
       out.cls('suggest_returned_empty')
   out.nontrivial = failing_call and illegal_mutation
+  out.cls('config_' + case.get('config', 'small'))
   if failing_call:
     out.cls('has_failing_call')
   if illegal_mutation:
@@ -357,5 +400,6 @@ def families(tier):
                   required_classes=('has_failing_call',
                                     'mutation_of_completed_trial',
                                     'has_set_state', 'has_add_trial',
+                                    'config_big', 'config_unregistered',
                                     'suggest_returned_empty')),
   ]
